@@ -225,3 +225,125 @@ Proof.
       generalize (lo q1). intro x. Z.div_mod_to_equations. lia. }
     exact (IH u1 (RightShift n 1) (LeftShift q1 1) (k - 1) Wu1 Wn' Wq' A1 A2 Vn'' A3 A4 A5 HU).
 Qed.
+
+(* ---- the estimate-and-correct kernel for divisors of more than 64 bits *)
+(* the arithmetic core: D = v1 * t under-estimates the divisor n by less than t; then floor(u/D) is the quotient or one more *)
+Lemma estimate_core u n v1 t q : 0 <= u < P128 -> SIGN <= v1 -> (t = 2 \/ 4 <= t) -> v1 * t <= n < (v1 + 1) * t ->
+  q = u / (v1 * t) -> u / n <= q /\ (q - 1) * n <= u.
+Proof.
+  intros Hu Hv Ht Hn ->. set (D := v1 * t) in *. assert (HD : 0 < D) by (unfold D; destruct Ht; nia).
+  pose proof (Z.div_mod u D ltac:(lia)) as E. pose proof (Z.mod_pos_bound u D HD) as M. set (q := u / D) in *.
+  assert (Hq0 : 0 <= q) by (apply Z.div_pos; lia).
+  split.
+  - unfold q. apply Z.div_le_compat_l; lia.
+  - assert (A : (q - 1) * (n - D) <= D).
+    { destruct (Z.eq_dec q 0) as [->|Hq]; [nia|]. destruct Ht as [->|Ht].
+      + (* t = 2: n - D <= 1 and q < 2^64 <= D *)
+        assert (n - D <= 1) by (unfold D in *; lia). assert (q * D <= u) by lia. assert (W <= D) by (unfold D; lia).
+        assert (q < W) by nia. nia.
+      + (* t >= 4: (q-1)(n-D) < q*t < 2^65 <= D *)
+        assert (q * D <= u) by lia. assert (q * t * SIGN <= q * D) by (unfold D; nia).
+        assert (q * t < 2 * W) by lia. assert (2 * W <= D) by (unfold D; nia).
+        assert ((q - 1) * (n - D) <= q * t) by (unfold D in *; nia). lia. }
+    nia.
+Qed.
+
+Lemma lz64_top v : SIGN <= v < W -> lz64 v = 0.
+Proof.
+  intro H. unfold lz64, len64. destruct (Z.eqb_spec v 0); [lia|]. assert (Z.log2 v = 63); [|lia].
+  apply Z.log2_unique; [lia|]. change (2 ^ 63) with SIGN. change (2 ^ Z.succ 63) with W. lia.
+Qed.
+
+Lemma uval_mk a b : uval (mk a b) = a * W + b. Proof. reflexivity. Qed.
+
+Definition div_result (u n : w128) (o : option (w128 * w128)) : Prop :=
+  exists q r, o = Some (q, r) /\ wf q /\ wf r /\ uval q = uval u / uval n /\ uval r = uval u mod uval n.
+
+Lemma by128_small u n : wf u -> wf n -> hi n = 0 -> 0 < lo n -> div_result u n (divmod128by128 u n 64 (lz64 (lo n))).
+Proof.
+  intros Wu Wn Hn Hl. unfold divmod128by128. rewrite Hn. cbn [Z.eqb]. destruct Wu as [Wh Wl]. destruct Wn as [_ Wnl].
+  assert (En : uval n = lo n) by (unfold uval; rewrite Hn; lia).
+  destruct (Z.ltb_spec (hi u) (lo n)) as [Hlt|Hge].
+  - rewrite (divmod128by64_spec u (lo n)) by (try (split; assumption); lia). unfold div_result. rewrite En.
+    assert (0 <= uval u / lo n < W). { split; [apply Z.div_pos; [unfold uval; nia|lia]|apply Z.div_lt_upper_bound; [lia|unfold uval; nia]]. }
+    pose proof (Z.mod_pos_bound (uval u) (lo n) Hl).
+    eexists _, _. split; [reflexivity|]. split; [unfold wf; cbn; lia|]. split; [unfold wf; cbn; lia|]. rewrite !uval_mk. split; lia.
+  - set (u2 := mk (hi u mod lo n) (lo u)). pose proof (Z.mod_pos_bound (hi u) (lo n) Hl) as Mh.
+    assert (Wu2 : wf u2) by (unfold wf, u2; cbn [hi lo]; lia).
+    rewrite (divmod128by64_spec u2 (lo n) Wu2) by (unfold u2; cbn [hi lo]; lia). unfold div_result. rewrite En.
+    assert (V2 : uval u2 = (hi u mod lo n) * W + lo u) by reflexivity.
+    pose proof (Z.div_mod (hi u) (lo n) ltac:(lia)) as Dh.
+    assert (Q2 : 0 <= uval u2 / lo n < W). { split; [apply Z.div_pos; [rewrite V2; nia|lia]|apply Z.div_lt_upper_bound; [lia|rewrite V2; nia]]. }
+    pose proof (Z.mod_pos_bound (uval u2) (lo n) Hl) as M2. pose proof (Z.div_mod (uval u2) (lo n) ltac:(lia)) as D2.
+    assert (Qh : 0 <= hi u / lo n < W) by (split; [apply Z.div_pos; lia|apply Z.div_lt_upper_bound; nia]).
+    assert (EU : uval u = (hi u / lo n * W + uval u2 / lo n) * lo n + uval u2 mod lo n) by (unfold uval at 1; rewrite V2 in D2; nia).
+    eexists _, _. split; [reflexivity|]. split; [unfold wf; cbn; lia|]. split; [unfold wf; cbn; lia|]. rewrite !uval_mk. split.
+    + apply (Z.div_unique_pos (uval u) (lo n) _ (uval u2 mod lo n)); lia.
+    + replace (0 * W + uval u2 mod lo n) with (uval u2 mod lo n) by lia. apply (Z.mod_unique_pos (uval u) (lo n) (hi u / lo n * W + uval u2 / lo n)); lia.
+Qed.
+
+Lemma by128_large u n : wf u -> wf n -> 0 < hi n -> div_result u n (divmod128by128 u n (lz64 (hi n)) 0).
+Proof.
+  intros Wu Wn Hn. unfold divmod128by128. destruct (Z.eqb_spec (hi n) 0); [lia|].
+  pose proof (uval_range u Wu) as Ru. pose proof (uval_range n Wn) as Rn. destruct Wn as [Wnh Wnl]. assert (Wn : wf n) by (split; assumption).
+  destruct (lz_norm (hi n) ltac:(lia)) as [Hh Hnorm]. set (h := lz64 (hi n)) in *.
+  assert (P2 : 0 < 2 ^ h) by (apply Z.pow_pos_nonneg; lia).
+  (* the normalised divisor and its top word *)
+  destruct (LeftShift_spec n h Wn ltac:(lia)) as [Wv Vv].
+  set (t := 2 ^ (64 - h)). assert (Et : 2 ^ h * t = W) by (unfold t; rewrite <- Z.pow_add_r by lia; replace (h + (64 - h)) with 64 by lia; reflexivity).
+  assert (Pt : 0 < t) by (unfold t; apply Z.pow_pos_nonneg; lia).
+  assert (A1 : hi n + 1 <= t) by (clear - Hnorm Et P2 Pt; nia).
+  assert (Nsmall : uval n * 2 ^ h < P128).
+  { unfold uval. assert (X1 : hi n * 2 ^ h <= W - 2 ^ h) by (clear - A1 Et P2; nia).
+    assert (X2 : lo n * 2 ^ h < W * 2 ^ h) by (clear - Wnl P2; nia).
+    assert (X3 : hi n * W * 2 ^ h <= (W - 2 ^ h) * W) by (clear - X1; nia). clear - X2 X3. lia. }
+  rewrite Z.mod_small in Vv by (split; [unfold uval; nia|exact Nsmall]).
+  set (v := LeftShift n h) in *. set (v1 := hi v). destruct Wv as [Wv1 Wv0]. fold v1 in Wv1.
+  assert (Ev : uval n * 2 ^ h = v1 * W + lo v) by (rewrite <- Vv; reflexivity).
+  assert (Hv1 : SIGN <= v1 < W). { split; [|lia]. unfold uval in Ev. assert (hi n * 2 ^ h * W <= v1 * W + lo v) by nia. nia. }
+  (* the halved dividend *)
+  destruct (RightShift_spec u 1 Wu ltac:(lia)) as [Wu1 Vu1]. change (2 ^ 1) with 2 in Vu1. set (u1 := RightShift u 1) in *.
+  assert (Hu1 : hi u1 < v1). { destruct Wu1 as [A B]. assert (uval u1 < P127) by (rewrite Vu1; apply Z.div_lt_upper_bound; lia). unfold uval in H. nia. }
+  replace (divmod128by64 u1 v1 0) with (divmod128by64 u1 v1 (lz64 v1)) by (rewrite (lz64_top v1 Hv1); reflexivity).
+  rewrite (divmod128by64_spec u1 v1 Wu1 ltac:(lia) Hu1).
+  (* the estimate *)
+  assert (Ht : t = 2 \/ 4 <= t).
+  { unfold t. destruct (Z.eq_dec h 63) as [->|]; [left; reflexivity|right]. change 4 with (2 ^ 2). apply Z.pow_le_mono_r; lia. }
+  assert (Hnt : v1 * t <= uval n < (v1 + 1) * t) by (split; nia).
+  assert (Eq0 : shr (uval u1 / v1) (63 - h) = uval u / (v1 * t)).
+  { rewrite shr_val by lia. rewrite Vu1, !Z.div_div by (try apply Z.pow_pos_nonneg; lia). f_equal.
+    unfold t. replace (64 - h) with (Z.succ (63 - h)) by lia. rewrite Z.pow_succ_r by lia. ring. }
+  rewrite Eq0. set (q0 := uval u / (v1 * t)).
+  destruct (estimate_core (uval u) (uval n) v1 t q0 Ru ltac:(lia) Ht Hnt eq_refl) as [Lo Hi].
+  assert (Hq0 : 0 <= q0 < W).
+  { assert (HD : W <= v1 * t) by (clear - Hv1 Ht; destruct Ht as [->|Ht]; nia).
+    unfold q0. split; [apply Z.div_pos; lia|]. apply Z.div_lt_upper_bound; [lia|]. clear - HD Ru. nia. }
+  set (Q := uval u / uval n) in *.
+  pose proof (Z.div_mod (uval u) (uval n) ltac:(lia)) as DM. pose proof (Z.mod_pos_bound (uval u) (uval n) ltac:(lia)) as MB. fold Q in DM.
+  assert (HQ : 0 <= Q) by (apply Z.div_pos; lia).
+  (* the decremented estimate is Q or Q - 1 and its product with n does not exceed u *)
+  set (ql := if negb (q0 =? 0) then wrap (q0 - 1) else q0).
+  assert (Hql : 0 <= ql < W /\ ql * uval n <= uval u /\ Q - 1 <= ql <= Q).
+  { unfold ql. destruct (Z.eqb_spec q0 0) as [E|E]; cbn [negb].
+    - rewrite E in *. split; [lia|]. split; [lia|lia].
+    - rewrite wrap_small by (unfold w64; lia). split; [lia|]. split; [exact Hi|]. split; [lia|].
+      (* q0 - 1 <= Q because (q0 - 1) * n <= u *)
+      apply Z.div_le_lower_bound; lia. }
+  destruct Hql as (Wql & Pql & Bql).
+  set (q := mk 0 ql). assert (Wq : wf q) by (unfold wf, q; cbn; lia). assert (Vq : uval q = ql) by (unfold q; rewrite uval_mk; lia).
+  assert (Pnn : 0 <= ql * uval n) by (apply Z.mul_nonneg_nonneg; lia).
+  destruct (Mul_spec q n Wq Wn) as [Wm Vm]. rewrite Vq, Z.mod_small in Vm by lia.
+  destruct (Sub_spec u (Mul q n) Wu Wm) as [Wr Vr]. rewrite Vm, Z.mod_small in Vr by lia. set (r := Sub u (Mul q n)) in *.
+  rewrite (Cmp_spec r n Wr Wn). unfold zcmp3. unfold div_result. fold Q.
+  (* ql = Q exactly when the remainder is below n *)
+  assert (Key : (uval r < uval n -> ql = Q) /\ (uval n <= uval r -> ql = Q - 1)).
+  { rewrite Vr. clear - DM MB Bql Rn. assert (C : ql = Q \/ ql = Q - 1) by lia. split; intro X; destruct C as [->| ->]; lia. }
+  destruct Key as [K1 K2].
+  destruct (Z.compare_spec (uval r) (uval n)) as [E|L|G]; cbn [Z.leb Z.compare].
+  - destruct (Inc_spec q Wq) as [Wi Vi]. rewrite Vq, Z.mod_small in Vi by lia. destruct (Sub_spec r n Wr Wn) as [Ws Vs]. rewrite Z.mod_small in Vs by lia.
+    exists (Inc q), (Sub r n). split; [reflexivity|]. split; [exact Wi|]. split; [exact Ws|]. rewrite Vi, Vs, Vr, (K2 ltac:(lia)). clear - DM. split; lia.
+  - exists q, r. split; [reflexivity|]. split; [exact Wq|]. split; [exact Wr|]. rewrite Vq, Vr, (K1 L). clear - DM. split; lia.
+  - destruct (Inc_spec q Wq) as [Wi Vi]. rewrite Vq, Z.mod_small in Vi by lia. destruct (Sub_spec r n Wr Wn) as [Ws Vs]. rewrite Z.mod_small in Vs by lia.
+    exists (Inc q), (Sub r n). split; [reflexivity|]. split; [exact Wi|]. split; [exact Ws|]. rewrite Vi, Vs, Vr, (K2 ltac:(lia)). clear - DM. split; lia.
+Qed.
+
